@@ -16,6 +16,9 @@
 (*   arch      "valid" | "invalid"   (header fails validation)             *)
 (*   pin       "none" | "match" | "mismatch"   (--verify-header)           *)
 (*   nseeds, stdin_seed, verify_out, transport  ("local" | "http")         *)
+(*   out       also "empty": an existing regular file of length zero (as    *)
+(*             left by mktemp or a failed earlier run) - it exists, so it  *)
+(*             is refused like any other existing file; and                *)
 (*   out       also "dangling": the output name is a symbolic link whose   *)
 (*             target does not exist - the name is taken (O_EXCL refuses), *)
 (*             nothing may be created behind it by a refused run           *)
